@@ -40,7 +40,11 @@ def main(argv=None):
     pid = a.pid.upper()
     try:
         res = run_property(pid, a.tier, seed)
-        code = res.finish()
+        try:
+            code = res.finish()
+        except BrokenPipeError:
+            code = 1 if any(True for f in res.findings) else (2 if res.undecided else 0)
+            return code
     except SourceError as e:
         print(f"ANALYSIS-ERROR property={pid}: {e}")
         _fallback_evidence(pid, a.tier, seed, str(e))
@@ -50,7 +54,10 @@ def main(argv=None):
         print(f"ANALYSIS-ERROR property={pid}: internal error in the checker (traceback above)")
         _fallback_evidence(pid, a.tier, seed, "internal error")
         code = 2
-    sys.stdout.flush()
+    try:
+        sys.stdout.flush()
+    except BrokenPipeError:
+        pass
     return code
 
 
